@@ -20,7 +20,13 @@ RULE = ("metamorphic cases = (namespace, task invocation built by construction, 
         "every spelling (long, short, '=', spaced, glued, combined short booleans) x every item boundary of every task of the "
         "invocation, with and without flags of the task shadowing the spelling, with and without a remainder after '--'; plus "
         "random argvs over an alphabet of core/task tokens for the model correspondence. Non-trivial = the moved option changes "
-        "at least one core value w.r.t. the run without it; distinct = distinct (namespace, argv) pairs")
+        "at least one core value w.r.t. the run without it; distinct = distinct (namespace, argv) pairs. Family CROSS: two or "
+        "three task contexts in one command line, each carrying a combined/glued short block starting with the SAME letter, in "
+        "a namespace whose tasks shadow core short flags with flags of a different kind (bool vs value vs optional value): "
+        "each block must mean what it means in its own context (= the flag-by-flag spelling with the core part moved to the "
+        "front). Family DASHVAL: values '--', '-', '---', '--x', '-x=y' ... for task value flags, optional-value flags and core "
+        "value flags in the '=', glued and spaced spellings, before/inside the tasks, with and without a real remainder: value "
+        "verbatim, later tokens intact, remainder = what follows the first bare '--' token of the original argv")
 TRUSTED = ["Lean 4.33 kernel", "axioms propext/Classical.choice/Quot.sound only",
            "harness/props/c18.py metamorphic generator + oracle + canonicalisation", "tools/extractors/parser.py (core argument table)",
            "models Invoke/Model/Parser.lean + Program.lean hand-written, tied by correspondence on every run",
@@ -438,11 +444,183 @@ def listing_effect(case):
     return None
 
 
+# ------------------------------------------------------------------ family: same-letter short blocks in DIFFERENT contexts
+
+# tasks shadow core SHORT flags with a flag of a DIFFERENT kind: `-F` (core: value, list-format) is boolean in `build`,
+# `-e` (core: boolean, echo) takes a value in `pack`, `-w` (core: boolean) takes an optional value in `wopt`
+CROSS_NS = {"id": "X1", "tasks": [
+    {"name": "build", "params": [["F", False], ["a", False], ["b", False]]},
+    {"name": "deploy", "params": [["x", False], ["a", False], ["b", False]]},
+    {"name": "pack", "params": [["e", "none"], ["a", False]]},
+    {"name": "other", "params": [["a", False], ["b", False], ["g", False]]},
+    {"name": "wopt", "params": [["w", None], ["a", False]], "optional": ["w"]}]}
+CROSS_BLOCKS = ["-Fab", "-Fba", "-eab", "-eba", "-wab", "-ea", "-Fa", "-wa", "-abe", "-bae"]
+
+
+def decompose(nv, task, block):
+    """the meaning of a multi-character short token IN ITS OWN CONTEXT: the two-character prefix is the task's flag if the
+    task defines that short name, else the core flag; a value-taking flag gets the rest as its value, otherwise every
+    further letter is a flag of its own.  -> ([core items], [task items]) with item = (flag, value|None), or None when
+    some letter means nothing in that context (no statement then)."""
+    core, own = [], []
+    tflags, cflags = task["flags"], nv.view.initial["flags"]
+    first = block[:2]
+    a = tflags.get(first)
+    where = own
+    if a is None:
+        a, where = cflags.get(first), core
+    if a is None or a["names"][0] in UNSAFE_CORE or a["incrementable"]:
+        return None
+    if c07.View.takes_value(a):
+        where.append((first, block[2:]))
+        return core, own
+    where.append((first, None))
+    for ch in block[2:]:
+        fl = "-" + ch
+        b = tflags.get(fl)
+        w2 = own
+        if b is None:
+            b, w2 = cflags.get(fl), core
+        if b is None or c07.View.takes_value(b) or b["incrementable"] or b["names"][0] in UNSAFE_CORE:
+            return None
+        w2.append((fl, None))
+    return core, own
+
+
+def cross_case_argvs(nv, case):
+    """-> (argv as written, reference argv: core part moved to the front and spelled spaced, task parts flag by flag)"""
+    argv, ref_core, ref_tasks = [], [], []
+    for tname, block in case["calls"]:
+        d = decompose(nv, nv.view.names[tname], block)
+        if d is None:
+            return None
+        core, own = d
+        argv += [tname, block]
+        for f, v in core:
+            ref_core += [f] if v is None else [f, v]
+        ref_tasks.append(tname)
+        for f, v in own:
+            ref_tasks += [f] if v is None else [f, v]
+    return argv, ref_core + ref_tasks
+
+
+def oracle_cross(nv, case, runs):
+    av = cross_case_argvs(nv, case)
+    if av is None:
+        return None, "dontcare:a-letter-of-the-block-means-nothing-in-its-context"
+    argv, ref = av
+    for key_argv in (argv, ref):
+        key = json.dumps(key_argv)
+        if key not in runs:
+            runs[key] = run_program(case["ns"], key_argv)
+    A, R = runs[json.dumps(argv)], runs[json.dumps(ref)]
+    if R["exc"] is not None or R["stage"].get("tasks", "unset") is not None or len(R["calls"]) != len(case["calls"]):
+        return None, "dontcare:reference-spelling-not-accepted"
+    if not same_effect(A, R):
+        return ("each short block must be read in ITS OWN context (task flag if the task defines that short name, else the core "
+                "flag): %r gave %r, the flag-by-flag spelling %r gives %r" % (argv, _brief(A), ref, _brief(R))), "cross"
+    return None, "cross"
+
+
+def cross_cases(nv, rng, n):
+    names = [t["name"] for t in nv.view.tasks]
+    out, seen = [], set()
+    # every ordered pair of different tasks x every pair of blocks starting with the same letter, both orders
+    pairs = [(t1, t2) for t1 in names for t2 in names if t1 != t2]
+    combos = [(b1, b2) for b1 in CROSS_BLOCKS for b2 in CROSS_BLOCKS if b1[1] == b2[1]]
+    allc = [(p, c) for p in pairs for c in combos]
+    rng.shuffle(allc)
+    for (t1, t2), (b1, b2) in allc:
+        calls = [[t1, b1], [t2, b2]]
+        if rng.random() < 0.15:
+            t3 = rng.choice([t for t in names if t not in (t1, t2)])
+            calls.append([t3, rng.choice([b for b in CROSS_BLOCKS if b[1] == b1[1]])])
+        case = {"kind": "cross", "ns": nv.ns, "calls": calls}
+        if cross_case_argvs(nv, case) is None:
+            continue
+        out.append(case)
+        if len(out) >= n:
+            break
+    return out
+
+
+# ------------------------------------------------------------------ family: values that look like the sentinel
+
+DASH_NS = {"id": "X2", "tasks": [
+    {"name": "val", "params": [["pos"], ["name", "n"], ["opt", None]], "optional": ["opt"]},
+    {"name": "after", "params": [["flag", False]]}]}
+DASH_VALUES = ["--", "-", "---", "--x", "-x=y", "--=", "-- "]
+
+
+def dash_cases(nv):
+    """a value-taking flag (task flag, optional-value task flag, core flag) given a value that looks like the remainder
+    sentinel or like a flag, in every spelling that delivers it INSIDE one token or as the next token"""
+    owners = [("task", "--name", "-n", "name"), ("task", "--opt", "-o", "opt"),
+              ("core", "--hide", None, "hide"), ("core", "--list-format", "-F", "list-format")]
+    cases = []
+    for where, lng, sht, key in owners:
+        for v in DASH_VALUES:
+            forms = [[lng + "=" + v]]
+            if sht:
+                forms.append([sht + "=" + v])
+                if not v.startswith("="):
+                    forms.append([sht + v])
+            if v != "--":
+                forms.append([lng, v])          # spaced: a bare `--` token IS the sentinel, every other value is verbatim
+            for form in forms:
+                for placement in (["front", "inside"] if where == "core" else ["inside"]):
+                    for rem in (None, ["r1", "--", "-e"]):
+                        cases.append({"kind": "dashval", "ns": nv.ns, "where": where, "key": key, "value": v, "form": form,
+                                      "placement": placement, "rem": rem})
+    return cases
+
+
+def dash_argv(case):
+    item = case["form"]
+    body = (item if case["placement"] == "front" else []) + ["val", "posv"] + (item if case["placement"] == "inside" else []) + \
+        ["after", "--flag"]
+    return body + ((["--"] + case["rem"]) if case["rem"] is not None else [])
+
+
+def oracle_dash(nv, case, runs):
+    argv = dash_argv(case)
+    key = json.dumps(argv)
+    if key not in runs:
+        runs[key] = run_program(case["ns"], argv)
+    r = runs[key]
+    v = case["value"]
+    if r["exc"] is not None:
+        return None
+    want_rem = " ".join(argv[argv.index("--") + 1:]) if "--" in argv else ""
+    if r.get("remainder") != want_rem:
+        return ("remainder %r, but what follows the first bare '--' token of the command line %r is %r (a flag VALUE that "
+                "looks like the sentinel is not the sentinel)" % (r.get("remainder"), argv, want_rem))
+    if r["stage"].get("tasks", "unset") is not None or r["stage"].get("core", "unset") is not None:
+        return "value %r for %s given as %r was refused (it must be taken verbatim)" % (v, case["key"], case["form"])
+    got_calls = [(c["task"], c["kwargs"]) for c in r["calls"]]
+    want_val = {"name": "n", "opt": None, "pos": "posv"}
+    if case["where"] == "task":
+        want_val[case["key"]] = v
+    want_calls = [("val", want_val), ("after", {"flag": True})]
+    if got_calls != want_calls:
+        return "value %r for %s given as %r: tasks received %r, expected %r (value verbatim, later tokens intact)" % (
+            v, case["key"], case["form"], got_calls, want_calls)
+    if case["where"] == "core" and (r.get("core") or {}).get(case["key"]) != v:
+        return "core value %s = %r, expected %r verbatim (given as %r)" % (case["key"], (r.get("core") or {}).get(case["key"]), v, case["form"])
+    return None
+
+
 def match_known(entry, failure):
     return False
 
 
 def replay(case):
+    if case.get("kind") == "cross":
+        why, _ = oracle_cross(NsView(case["ns"]), case, {})
+        return why is None, why or "ok"
+    if case.get("kind") == "dashval":
+        why = oracle_dash(NsView(case["ns"]), case, {})
+        return why is None, why or "ok"
     if case.get("kind") == "listing":
         why = listing_effect(case)
         return why is None, why or "ok"
@@ -552,6 +730,26 @@ def run(ctx):
             if not res["argv_same"]:
                 out.fail(case, "Program.run modified argv")
             why = oracle_random(nv, argv, res)
+            if why:
+                out.fail(case, why)
+        compare_with_model(nv, runs, ctx, out, drv, baseline)
+    # same-letter short blocks in different contexts / values that look like the sentinel (each run also goes to the model)
+    for ns, family in ((CROSS_NS, "cross"), (DASH_NS, "dashval")):
+        nv = NsView(ns)
+        runs = {}
+        first = ns["tasks"][1]
+        base = run_program(ns, [first["name"]])
+        baseline = base["calls"][0]["snap"] if base["calls"] else dict((k, None) for k in SNAP_KEYS)
+        cases = cross_cases(nv, rng, ctx.n(260, 4000)) if family == "cross" else dash_cases(nv)
+        for case in cases:
+            if family == "cross":
+                why, tag = oracle_cross(nv, case, runs)
+                out.hist[tag if why is None else "oracle-failure"] += 1
+                out.case(case, tag == "cross")
+            else:
+                why = oracle_dash(nv, case, runs)
+                out.hist["dashval:%s" % case["where"] if why is None else "oracle-failure"] += 1
+                out.case(case, True)
             if why:
                 out.fail(case, why)
         compare_with_model(nv, runs, ctx, out, drv, baseline)
